@@ -52,6 +52,7 @@ class Engine:
         self.alloc = itertools.count(1)
         self.qfacts = []              # global lazily-instantiated facts
         self.contracts_used = set()
+        self._alias_cache = {}
         self.use_contracts = {}       # qname -> contract (set by the driver for the function under check)
         self.max_depth = 14
         self.unroll_limit = 8
@@ -60,6 +61,7 @@ class Engine:
         self.current_top = None
         self.stop_at_loop = None; self.stopped_states = []
         self.unroll_symbolic = 0      # >0: loops without contract may be unwound this many times with an unwinding obligation
+        self.split_heap_ifs = False   # top-level function: do not merge branches that wrote different heap contents
         self.lazy_locals = False      # slice mode: unbound outer variables get arbitrary values on first use
         self.name_locals = 0          # depth up to which scalar locals become named symbols with a defining equation
         self.def_eqs = {}             # id of defining equation -> (symbol, expression, local name)
@@ -187,7 +189,62 @@ class Engine:
 
     def hread(self, st, key, ref, rng):
         a = self.harr(st, key, z3.ArraySort(I, rng))
-        return z3.Select(a, ref)
+        return self.read_array(st, a, ref)
+
+    # read-over-write simplification: select(store(A,i,v), j) is resolved when i,j are identical or provably distinct under
+    # the path condition (small solver query, non-linear products abstracted); otherwise the select is left symbolic
+    def read_array(self, st, a, idx, depth=0):
+        if depth > 40 or not z3.is_app(a): return z3.Select(a, idx)
+        k = a.decl().kind()
+        if k == z3.Z3_OP_STORE:
+            i = a.arg(1)
+            if i.eq(idx): return a.arg(2)
+            if self.provably_distinct(st, i, idx): return self.read_array(st, a.arg(0), idx, depth + 1)
+            if self.provably_equal(st, i, idx): return a.arg(2)
+            return z3.Select(a, idx)
+        if k == z3.Z3_OP_ITE:
+            return z3.If(a.arg(0), self.read_array(st, a.arg(1), idx, depth + 1), self.read_array(st, a.arg(2), idx, depth + 1))
+        return z3.Select(a, idx)
+
+    def alias_solver(self, st):
+        ids = [p.get_id() for p in st.pc if is_z3(p)]
+        c = self._alias_cache
+        import smt
+        have = c.get('ids')
+        if have is not None and len(ids) >= len(have) and ids[:len(have)] == have:
+            new = [p for p in st.pc if is_z3(p)][len(have):]
+            if new:
+                try: ab = smt.abstract_nl(new)
+                except Exception: ab = new
+                for h in ab: c['solver'].add(h)
+                c['ids'] = ids
+                c['memo'] = {k: v for k, v in c['memo'].items() if v}      # facts proved stay proved when hypotheses are added
+            return c['solver'], c['memo']
+        s = z3.Solver(); s.set('timeout', 400)
+        hy = [p for p in st.pc if is_z3(p)]
+        try:
+            for h in smt.abstract_nl(hy): s.add(h)
+        except Exception:
+            for h in hy: s.add(h)
+        c.clear(); c['ids'] = ids; c['solver'] = s; c['memo'] = {}
+        return c['solver'], c['memo']
+
+    def provably_distinct(self, st, i, j):
+        if z3.is_int_value(i) and z3.is_int_value(j): return i.as_long() != j.as_long()
+        s, memo = self.alias_solver(st)
+        k = ('d', i.get_id(), j.get_id())
+        if k not in memo:
+            s.push(); s.add(i == j); r = s.check(); s.pop()
+            memo[k] = (r == z3.unsat)
+        return memo[k]
+
+    def provably_equal(self, st, i, j):
+        s, memo = self.alias_solver(st)
+        k = ('e', i.get_id(), j.get_id())
+        if k not in memo:
+            s.push(); s.add(i != j); r = s.check(); s.pop()
+            memo[k] = (r == z3.unsat)
+        return memo[k]
 
     def hwrite(self, st, key, ref, val):
         a = self.harr(st, key, z3.ArraySort(I, val.sort()))
@@ -1338,9 +1395,19 @@ class Engine:
         normal = [s for (s, o) in allo if o is None]
         other = [(s, o) for (s, o) in allo if o is not None]
         if len(normal) > 1:
+            if self.split_heap_ifs and fr.depth <= 1 and not self.same_heaps(normal):
+                return [(s, None) for s in normal] + other      # keep paths that wrote different things to the heap apart
             m, _ = merge_states(normal, base=self.base_for)
             normal = [m]
         return [(s, None) for s in normal] + other
+
+    def same_heaps(self, states):
+        h0 = states[0].heap
+        for s in states[1:]:
+            if set(s.heap) != set(h0): return False
+            for k, v in s.heap.items():
+                if not (v is h0[k] or v.eq(h0[k])): return False
+        return True
 
     def st_BreakStmt(self, n, st, fr): return [(st, ('break',))]
     def st_ContinueStmt(self, n, st, fr): return [(st, ('continue',))]
